@@ -114,6 +114,13 @@ CLAIMED = {
         "Trusted: einxverif/graphs.py interpreter (eager, one evaluation per node and scope activation). Recording is run-time interposition on einx._src.tracer.compiler.python.compile.",
         "DESIGN.md §4 C04, §3 S4",
     ),
+    "C11": (
+        "stateful model-based property testing (Hypothesis RuleBasedStateMachine) of fresh BackendRegistry objects against a reference model of the documented precedence; fault-injected child interpreters",
+        "Generated histories of registrations (eager / on-import, healthy / failing factories, any order), module imports, nested enter/exit and lookups are compared step by step with a 40-line "
+        "model of the documented selection chain; child interpreters with broken fake framework modules check isolation of import failures. Exploration only.",
+        "Trusted: the reference model in einxverif/props/c11.py. Synthetic frameworks follow the property's own quantifier (disjoint tensor types, one registration step per framework).",
+        "DESIGN.md §4 C11",
+    ),
 }
 NOT_YET = "check not built yet in this round (see DESIGN.md §8 build order); the property has an executable oracle and will be claimed once its check is registered"
 
